@@ -72,10 +72,15 @@ pub fn classify(prefix: &str, field: &str, spec: &SpecOut, rules: &[Rule], rq: &
 }
 
 pub fn check_list(prefix: &str, items: &[(&str, bool)], reqs: &[Req], l: &mut Local, sample: bool, resources: bool) {
+    check_list_opt(prefix, items, reqs, l, sample, resources, false)
+}
+
+/// `optimize`: build the engine with rule optimisation (the default of the public constructors).
+pub fn check_list_opt(prefix: &str, items: &[(&str, bool)], reqs: &[Req], l: &mut Local, sample: bool, resources: bool, optimize: bool) {
     let std_rules: Vec<&str> = items.iter().filter(|i| !i.1).map(|i| i.0).collect();
     let hosts: Vec<&str> = items.iter().filter(|i| i.1).map(|i| i.0).collect();
     let rules = ns::parse_rules(&std_rules, &hosts);
-    let mut e = build_engine(&std_rules, &hosts, false, resources);
+    let mut e = build_engine(&std_rules, &hosts, optimize, resources);
     l.states += 1;
     let store = if resources { ns::std_res_spec() } else { vec![] };
     let tags_present = alpha::tags_in(&std_rules);
@@ -113,7 +118,7 @@ pub fn check_list(prefix: &str, items: &[(&str, bool)], reqs: &[Req], l: &mut Lo
                         "list {:?}+{:?} tags {:?} request ({}, {}, {}): matching rules {:?}; reference {:?}; engine {:?}",
                         std_rules, hosts, tagset, rq.url, rq.source, rq.ty, spec.matching, spec.verdict, got
                     ),
-                    case: json!({"rules": std_rules, "hosts": hosts, "tags": tagset, "url": rq.url, "source": rq.source, "type": rq.ty, "resources": resources}),
+                    case: json!({"rules": std_rules, "hosts": hosts, "tags": tagset, "url": rq.url, "source": rq.source, "type": rq.ty, "resources": resources, "optimize": optimize}),
                     size: (items.len() * 10000 + tagset.len() * 1000 + rq.url.len() * 4 + rq.source.len()) as u64,
                 });
             }
@@ -142,6 +147,6 @@ pub fn replay_case(prefix: &str, case: &Value, l: &mut Local, resources: bool) {
     let ty: &'static str = Box::leak(case["type"].as_str().unwrap_or("script").to_string().into_boxed_str());
     if let Ok(req) = adblock::request::Request::new(&url, &source, ty) {
         let reqs = vec![Req { req, url, source, ty }];
-        check_list(prefix, &items, &reqs, l, false, resources);
+        check_list_opt(prefix, &items, &reqs, l, false, resources, case["optimize"].as_bool().unwrap_or(false));
     }
 }
